@@ -3,6 +3,7 @@
 Everything a registered check needs is rebuilt from /repo's working tree (harness) and
 /verif/lean (model + proofs); build products live under /verif/.cache keyed by content hash.
 """
+import fcntl
 import hashlib
 import json
 import os
@@ -73,12 +74,38 @@ class BuildError(Exception):
 _lean_built = False
 
 
+class lean_lock:
+    """Serialises every lake invocation of concurrently running checks (lake build of one check
+    must not replace .olean files another check's `#print axioms` audit is reading)."""
+    _depth = 0
+    _fh = None
+
+    def __enter__(self):
+        cls = lean_lock
+        if cls._depth == 0:
+            os.makedirs(CACHE, exist_ok=True)
+            cls._fh = open(os.path.join(CACHE, "lean.lock"), "w")
+            fcntl.flock(cls._fh, fcntl.LOCK_EX)
+        cls._depth += 1
+        return self
+
+    def __exit__(self, *a):
+        cls = lean_lock
+        cls._depth -= 1
+        if cls._depth == 0:
+            fcntl.flock(cls._fh, fcntl.LOCK_UN)
+            cls._fh.close()
+            cls._fh = None
+        return False
+
+
 def build_lean():
     """lake build of the model, the proofs and the driver. Raises BuildError."""
     global _lean_built
     if _lean_built and os.path.exists(DRIVER):
         return
-    rc, out = sh(["lake", "build", "BGV", "bgdriver"], cwd=LEAN, timeout=3000)
+    with lean_lock():
+        rc, out = sh(["lake", "build", "BGV", "bgdriver"], cwd=LEAN, timeout=3000)
     if rc != 0:
         raise BuildError("lake build", out)
     _lean_built = True
@@ -187,7 +214,8 @@ def audit_axioms():
     global _audit_cache
     if _audit_cache is not None:
         return _audit_cache
-    rc, out = sh(["lake", "env", "lean", "Audit.lean"], cwd=LEAN, timeout=1200)
+    with lean_lock():
+        rc, out = sh(["lake", "env", "lean", "Audit.lean"], cwd=LEAN, timeout=1200)
     res = {}
     # "'BGV.foo' depends on axioms: [propext, Quot.sound]"  /  "'BGV.foo' does not depend on any axioms"
     for m in re.finditer(r"'([^']+)' depends on axioms: \[([^\]]*)\]", out.replace("\n ", " ")):
